@@ -281,7 +281,7 @@ def beltrami_coefficient(tria, mapping):
     e1 = v0 - v2
     e2 = v1 - v0
     # double areas
-    areas2 = np.cross(e0, e1)  # returns z-component is length
+    areas2 = e0[:, 0] * e1[:, 1] - e0[:, 1] * e1[:, 0]  # z-component of the cross product
 
     # create tria,vertex matrices (summing area normalized edge coords)
     nf = tria.t.shape[0]
